@@ -76,6 +76,22 @@ register("TEMP_SUFFIX", "src/temp_file.rs", r'pub fn temp_path_for\(dest: &Path\
 register("TEMP_CALLSITE", "src/transport/local.rs", r"let temp_dest = crate::temp_file::temp_path_for\(&dest\);\s*let temp_guard = TempFileGuard::new\(&temp_dest\);()", 1, "Z", ["C05", "C09"])
 
 
+# ---- C20: watch loop
+register("WATCH_TICK_MS", "src/sync/watch.rs", r"_ = tokio::time::sleep\(Duration::from_millis\(([0-9]+)\)\) =>", 10, "Z", ["C20"])
+register("WATCH_RECV_MS", "src/sync/watch.rs", r"match rx\.recv_timeout\(Duration::from_millis\(([0-9]+)\)\)", 100, "Z", ["C20"])
+register("WATCH_DEBOUNCE_MS", "src/main.rs", r"Duration::from_millis\(([0-9]+)\), // [0-9]+ms debounce", 500, "Z", ["C20"])
+# the watcher is registered before the initial sync
+register("WATCH_ORDER", "src/sync/watch.rs", r"watcher\.watch\(&self\.source, RecursiveMode::Recursive\)\?;\s*(?://[^\n]*\s*)*tracing::info!\(\"Running initial sync\.\.\.\"\);\s*self\.engine\.sync\(&self\.source, &self\.destination\)\.await\?;()", 1, "Z", ["C20"])
+# shape of the loop: events are pushed when they pass the filter; on a timeout with pending events and elapsed debounce a
+# sync runs; afterwards ONLY the pending list is cleared and the clock reset (nothing is taken from the channel)
+register("WATCH_LOOP_SHAPE", "src/sync/watch.rs",
+         r"Ok\(Ok\(event\)\) => \{\s*(?://[^\n]*\s*)*if self\.should_sync_event\(&event\) \{\s*pending_changes\.push\(event\);\s*\}\s*\}[\s\S]*?"
+         r"Err\(RecvTimeoutError::Timeout\) => \{\s*(?://[^\n]*\s*)*if !pending_changes\.is_empty\(\) && last_sync\.elapsed\(\) >= self\.debounce \{[\s\S]*?"
+         r"match self\.engine\.sync\(&self\.source, &self\.destination\)\.await \{\s*Ok\(_\) => \{(?:(?!rx\.|pending_changes)[\s\S])*?\}\s*Err\(e\) => \{(?:(?!rx\.|pending_changes)[\s\S])*?\}\s*\}\s*"
+         r"pending_changes\.clear\(\);\s*last_sync = Instant::now\(\);\s*\}\s*\}()", 1, "Z", ["C20"])
+register("WATCH_EVENT_KINDS", "src/sync/watch.rs", r"EventKind::Create\(_\) \| EventKind::Modify\(_\) \| EventKind::Remove\(_\) => true,\s*(?://[^\n]*\s*)*_ => false,()", 1, "Z", ["C20"])
+
+
 def generate():
     vals, missing = {}, []
     cache = {}
